@@ -14,6 +14,82 @@ from .core.report import Check
 RULE_MODULES = {f"C{i:02d}": f"qv.rules.c{i:02d}" for i in range(1, 21)}
 
 
+def _enclosing_functions(repo: Repo, rel: str, line: int):
+    """(module name, qualpath, node) of every function of file `rel` that spans `line`."""
+    import ast
+    out = []
+    for m in repo.modules.values():
+        if m.rel != rel:
+            continue
+
+        def rec(node, path):
+            for ch in ast.iter_child_nodes(node):
+                if isinstance(ch, (ast.FunctionDef, ast.AsyncFunctionDef)):
+                    q = path + [ch.name]
+                    if ch.lineno <= line <= (ch.end_lineno or ch.lineno):
+                        out.append((m.name, ".".join(q), ch))
+                    rec(ch, q)
+                elif isinstance(ch, ast.ClassDef):
+                    rec(ch, path + [ch.name])
+                elif isinstance(ch, (ast.If, ast.Try, ast.With, ast.For, ast.While)):
+                    rec(ch, path)
+        rec(m.tree, [])
+    return out
+
+
+def withhold_unrecognised(check: Check, pid: str) -> None:
+    """A violation located in a function whose *keyed locals* (the variable spellings this
+    property's matching rules depend on, frozen in keyed_locals.json) no longer exist is withheld:
+    the idiom is not recognised any more, which is an analysis error, never a property alarm."""
+    import ast
+    path = os.path.join(os.path.dirname(os.path.abspath(__file__)), "rules", "keyed_locals.json")
+    if not os.path.exists(path):
+        return
+    with open(path, "r", encoding="utf-8") as fh:
+        table = json.load(fh).get(pid, {})
+    if not table or not any(o.verdict == "violated" for o in check.obligations):
+        return
+    repo = Repo()
+    cache: dict = {}
+    from .core.keyed import slice_idents
+    analysed = set(check.functions_analysed)
+
+    def current_names(node):
+        return {n.id for n in ast.walk(node) if isinstance(n, ast.Name)} | {a.arg for a in ast.walk(node) if isinstance(a, ast.arg)}
+
+    for ob in check.obligations:
+        if ob.verdict != "violated":
+            continue
+        relevant = slice_idents(list(ob.src))  # None: unknown → every keyed name counts
+        cands = []  # (key in table, node)
+        if ":" in ob.where:
+            rel, _, ln = ob.where.rpartition(":")
+            try:
+                for mname, q, node in _enclosing_functions(repo, rel, int(ln)):
+                    cands.append((f"{mname}:{q}", node))
+            except ValueError:
+                pass
+        for q in analysed:
+            if q in table and not any(k == q for k, _ in cands):
+                try:
+                    cands.append((q, repo.func(q)[1]))
+                except Exception:
+                    continue
+        for key, node in cands:
+            keyed = table.get(key)
+            if not keyed:
+                continue
+            if key not in cache:
+                present = current_names(node)
+                cache[key] = sorted(k for k in keyed if k not in present)
+            missing = [k for k in cache[key] if relevant is None or k in relevant]
+            if missing:
+                ob.verdict = "withheld"
+                check.error(f"{ob.rule} idiom not recognised in {key} — this rule is keyed on local name(s) {missing} that no longer exist; "
+                            f"withheld (not a verdict): {ob.construct}")
+                break
+
+
 def run_one(pid: str, tier: str, replay: str | None = None) -> int:
     modname = RULE_MODULES.get(pid)
     if modname is None:
@@ -35,6 +111,10 @@ def run_one(pid: str, tier: str, replay: str | None = None) -> int:
     except Exception as exc:  # a crash is an analysis error, never a verdict
         tb = traceback.format_exc(limit=6)
         check.error(f"checker crashed: {type(exc).__name__}: {exc}\n{tb}")
+    try:
+        withhold_unrecognised(check, pid)
+    except Exception as exc:
+        check.error(f"keyed-locals guard crashed: {type(exc).__name__}: {exc}")
     if replay:
         try:
             with open(replay, "r", encoding="utf-8") as fh:
